@@ -25,7 +25,22 @@
    replayed responses and the resynchronisation heuristics of _decrypt_response are C06/C13/C17's.
    Cancellation is a stimulus for waiting callers, for the connecting caller during pair-verify, and for
    callers whose own request is queued or in flight (not for the connecting caller while it fetches the
-   accessory database or re-subscribes, and not for a subscribe() still queued on the session lock). *)
+   accessory database or re-subscribes, not for a subscribe() still queued on the session lock, and not for
+   close()/shutdown()).
+
+   With Deviations = {} the module describes the intended behaviour and TLC checks the design properties below.
+   The released library departs from it in six ways, each modelled as a named deviation (the name is the signature of
+   the recorded finding, proposed repair in proposed_fixes/EXTCOAP-n.patch); a deviation replaces the intended
+   behaviour in exactly the situation it concerns and is entered in devUsed when its effect becomes observable:
+     D_QUEUED   a request that waited for the lock of a session which ended meanwhile raises AttributeError (1)
+     D_LIBSHUT  outstanding requests of a context that is shut down (aiocoap LibraryShutdown) escape as such (2)
+     D_BGDEAD   reconnect_soon on a session that already shut itself down dies with AttributeError (3)
+     D_NOTMARK  reconnect_soon shuts the context of a live session down but leaves coap_ctx set: the session is
+                used again (request on a shut-down context, second shutdown) (3)
+     D_PVLEAK   a caller cancelled during pair-verify leaves the new context open (4)
+     D_BYPASS   is_connected is consulted before connection_future: a caller that arrives during a connect uses the
+                half set-up session (AttributeError 'info' for put_characteristics on the first connect) (5)
+   CloseEnds = FALSE (default reading): close()/shutdown() only unsubscribe; TRUE models proposed_fixes/EXTCOAP-6. *)
 EXTENDS Naturals, FiniteSets, Sequences, TLC
 
 CONSTANTS Callers,      \* identifiers of API callers (tasks)
@@ -38,6 +53,8 @@ CONSTANTS Callers,      \* identifiers of API callers (tasks)
           MaxReq,       \* no new API call once this many requests were made (0 = unbounded)
           MaxBg,        \* bound on pending reconnect_soon tasks
           MaxEv,        \* bound on events delivered per session (model checking)
+          CloseEnds,    \* TRUE: close()/shutdown() end the session (EXTCOAP-6); FALSE: they only unsubscribe (as released)
+          Deviations,   \* which departures of the released library are modelled ({} = intended behaviour)
           Obs           \* TRUE: collect emissions (trace validation)
 
 VARIABLES ctxs,         \* contexts ever created: [shut, res]  (res: EventResource registered)
@@ -52,9 +69,27 @@ VARIABLES ctxs,         \* contexts ever created: [shut, res]  (res: EventResour
           nreq,         \* requests ever made (ids)
           bg,           \* reconnect_soon tasks created and not yet run
           closedClean,  \* history: the last API activity was a close()/shutdown() that returned with no other call active
-          out           \* emissions of the last step (Obs)
+          out,          \* emissions of the last step (Obs)
+          hasInfo,      \* the connection object has an accessory database (`info`) from some session
+          devUsed,      \* history: deviations whose effect became observable
+          badRet,       \* history: some API call ended with an exception that is not a library exception
+          bgFailed      \* history: a background reconnect_soon task died
 
-vars == <<ctxs, sess, cur, fut, wanted, addr, descr, shutdownF, callers, nreq, bg, closedClean, out>>
+hvars == <<hasInfo, devUsed, badRet, bgFailed>>
+vars == <<ctxs, sess, cur, fut, wanted, addr, descr, shutdownF, callers, nreq, bg, closedClean, out, hvars>>
+
+D_QUEUED  == "coap-queued-call-on-ended-session"
+D_LIBSHUT == "coap-library-shutdown-escapes"
+D_BGDEAD  == "coap-reconnect-soon-on-ended-session"
+D_NOTMARK == "coap-ended-session-not-marked"
+D_PVLEAK  == "coap-cancelled-pair-verify-leaks-context"
+D_BYPASS  == "coap-caller-bypasses-connect-in-progress"
+AllDeviations == {D_QUEUED, D_LIBSHUT, D_BGDEAD, D_NOTMARK, D_PVLEAK, D_BYPASS}
+ASSUME Deviations \subseteq AllDeviations
+E_REQUEST == "error:AttributeError:request"       \* 'NoneType' object has no attribute 'request'
+E_INFO    == "error:AttributeError:info"          \* 'CoAPHomeKitConnection' object has no attribute 'info'
+E_LIBSHUT == "error:LibraryShutdown"
+ErrRes == {E_REQUEST, E_INFO, E_LIBSHUT}
 
 \* ------------------------------------------------------------------ records
 NewCtx == [shut |-> FALSE, res |-> FALSE]
@@ -69,10 +104,12 @@ ConnectPcs == {"m1", "m3", "info", "resub"}
 CloseApis == {"close", "shutdown"}
 
 St == [ctxs |-> ctxs, sess |-> sess, cur |-> cur, fut |-> fut, wanted |-> wanted, addr |-> addr, descr |-> descr,
-       shutdownF |-> shutdownF, callers |-> callers, nreq |-> nreq, bg |-> bg, closedClean |-> closedClean, out |-> << >>]
+       shutdownF |-> shutdownF, callers |-> callers, nreq |-> nreq, bg |-> bg, closedClean |-> closedClean, out |-> << >>,
+       hasInfo |-> hasInfo, devUsed |-> devUsed, badRet |-> badRet, bgFailed |-> bgFailed]
 Commit(S) == /\ ctxs' = S.ctxs /\ sess' = S.sess /\ cur' = S.cur /\ fut' = S.fut /\ wanted' = S.wanted /\ addr' = S.addr
              /\ descr' = S.descr /\ shutdownF' = S.shutdownF /\ callers' = S.callers /\ nreq' = S.nreq /\ bg' = S.bg
              /\ closedClean' = S.closedClean /\ out' = S.out
+             /\ hasInfo' = S.hasInfo /\ devUsed' = S.devUsed /\ badRet' = S.badRet /\ bgFailed' = S.bgFailed
 
 ConnectedS(S) == S.cur # 0 /\ ~S.sess[S.cur].dead          \* CoAPHomeKitConnection.is_connected
 Connected == ConnectedS(St)
@@ -80,20 +117,23 @@ LiveCtxS(S) == {x \in 1..Len(S.ctxs) : ~S.ctxs[x].shut}
 LiveCtx == LiveCtxS(St)
 
 Emit(S, ev) == IF Obs THEN [S EXCEPT !.out = Append(@, ev)] ELSE S
+Mark(S, d) == [S EXCEPT !.devUsed = @ \cup {d}]
 
 \* ------------------------------------------------------------------ controller operations (S -> S)
 \* the request of caller d is on the wire of context x
 OnCtx(S, d, x) == \/ S.callers[d].pc \in {"m1", "m3"} /\ S.callers[d].x = x
                   \/ S.callers[d].q = "flight" /\ S.sess[S.callers[d].e].x = x
 \* Context.shutdown(): aiocoap fails every outstanding request of the context (LibraryShutdown)
+\* (a context is shut down a second time only through D_NOTMARK)
 ShutCtx(S, x, c) ==
-    IF S.ctxs[x].shut THEN S
-    ELSE Emit([S EXCEPT !.ctxs[x].shut = TRUE,
-                        !.callers = [d \in Callers |->
-                             IF d # c /\ OnCtx(S, d, x) /\ S.callers[d].w = "none"
-                             THEN [S.callers[d] EXCEPT !.w = "shutdown"] ELSE S.callers[d]]],
-              [ev |-> "ctx_shut", x |-> x])
-\* the session ends: context shut down, coap_ctx = None
+    LET again == S.ctxs[x].shut
+        S1 == IF again THEN Mark(S, D_NOTMARK)
+              ELSE [S EXCEPT !.ctxs[x].shut = TRUE,
+                             !.callers = [d \in Callers |->
+                                  IF d # c /\ OnCtx(S, d, x) /\ S.callers[d].w = "none"
+                                  THEN [S.callers[d] EXCEPT !.w = "shutdown"] ELSE S.callers[d]]]
+    IN Emit(S1, [ev |-> "ctx_shut", x |-> x, again |-> again])
+\* the session ends: `if self.coap_ctx: await self.coap_ctx.shutdown(); self.coap_ctx = None`
 KillSess(S, e, c) == IF S.sess[e].dead THEN S ELSE [ShutCtx(S, S.sess[e].x, c) EXCEPT !.sess[e].dead = TRUE]
 \* connection.reconnect_soon(): end the session (if it is still alive) and forget it
 Disconnect(S, c) == IF S.cur = 0 THEN S ELSE [KillSess(S, S.cur, c) EXCEPT !.cur = 0]
@@ -104,11 +144,11 @@ Release(S, e, c) == [S EXCEPT !.sess[e].lockq = SelectSeq(@, LAMBDA d : d # c)]
 OthersIdle(S, c) == \A d \in Callers \ {c} : S.callers[d].pc = "idle"
 \* the API call of c ends with result res
 Ret(S, c, res) ==
-    Emit([S EXCEPT !.callers[c] = Idle,
+    Emit([S EXCEPT !.callers[c] = Idle, !.badRet = @ \/ res \in ErrRes,
                    !.closedClean = S.callers[c].api \in CloseApis /\ OthersIdle(S, c)],
          [ev |-> "ret", c |-> c, res |-> res])
 \* close(): whatever happens to the unsubscription, the session is ended before close() returns
-RetApi(S, c, res) == IF S.callers[c].api \in CloseApis THEN Ret(Disconnect(S, c), c, res) ELSE Ret(S, c, res)
+RetApi(S, c, res) == IF CloseEnds /\ S.callers[c].api \in CloseApis THEN Ret(Disconnect(S, c), c, res) ELSE Ret(S, c, res)
 
 \* `finally` of _ensure_connected: clear the flag, wake everybody who waits for this connect
 PrimaryFinally(S, c) ==
@@ -121,19 +161,33 @@ PostFailed(S, c, res) ==
     CASE S.callers[c].pc = "info"  -> Ret(PrimaryFinally(S, c), c, "disconnected")     \* except BaseException: "failed to connect"
       [] S.callers[c].pc = "resub" -> Ret(PrimaryFinally(S, c), c, res)
       [] OTHER                     -> RetApi(S, c, res)
+\* ... raised something that is not a library exception because of deviation d (observable unless connect() translates it)
+PostCrashed(S, c, res, d) == PostFailed(IF S.callers[c].pc = "info" THEN S ELSE Mark(S, d), c, res)
+
+\* the outstanding request of c on session e failed because its context was shut down (LibraryShutdown)
+ShutdownSeen(S, c, e) ==
+    IF D_LIBSHUT \in Deviations
+    THEN PostCrashed(Release(S, e, c), c, E_LIBSHUT, D_LIBSHUT)                   \* not caught: the session object is left as it is
+    ELSE PostFailed(Release(KillSess(S, e, c), e, c), c, "disconnected")
 
 \* c holds the lock of session e: post_bytes up to the await of the response
 IssueOn(S, c, e) ==
     LET P == S.callers[c] IN
     IF S.sess[e].dead
-    THEN PostFailed(Release(S, e, c), c, "disconnected")          \* the session ended while c waited for the lock
+    THEN \* the session ended while c waited for the lock
+         IF D_QUEUED \in Deviations THEN PostCrashed(Release(S, e, c), c, E_REQUEST, D_QUEUED)     \* None.request(...)
+         ELSE PostFailed(Release(S, e, c), c, "disconnected")
     ELSE LET r == S.nreq + 1
+             zombie == S.ctxs[S.sess[e].x].shut           \* only with D_NOTMARK: shut down by reconnect_soon, coap_ctx still set
              S1 == [S EXCEPT !.nreq = r, !.sess[e].sent = @ + 1,
                              \* the accessory applies the request when it arrives
-                             !.sess[e].reg = IF P.rop = "sub" THEN @ \cup P.rids ELSE IF P.rop = "unsub" THEN @ \ P.rids ELSE @,
+                             !.sess[e].reg = IF zombie THEN @ ELSE IF P.rop = "sub" THEN @ \cup P.rids
+                                             ELSE IF P.rop = "unsub" THEN @ \ P.rids ELSE @,
                              !.callers[c].q = "flight", !.callers[c].r = r, !.callers[c].w = "none"]
-         IN Emit(S1, [ev |-> "req", x |-> S.sess[e].x, r |-> r, c |-> c, kind |-> "enc", addr |-> S.sess[e].addr,
-                      e |-> e, n |-> S.sess[e].sent, op |-> P.rop, ids |-> P.rids])
+             S2 == Emit(S1, [ev |-> "req", x |-> S.sess[e].x, r |-> r, c |-> c, kind |-> "enc", addr |-> S.sess[e].addr,
+                             e |-> e, n |-> S.sess[e].sent, op |-> P.rop, ids |-> P.rids])
+         IN IF zombie THEN ShutdownSeen(Mark([S2 EXCEPT !.callers[c].q = "none"], D_NOTMARK), c, e)   \* fails at once
+            ELSE S2
 
 Post(S, c, e, pc, rop, rids) ==
     LET S1 == [S EXCEPT !.callers[c].pc = pc, !.callers[c].e = e, !.callers[c].rop = rop, !.callers[c].rids = rids,
@@ -146,14 +200,15 @@ Post(S, c, e, pc, rop, rids) ==
 OpStart(S, c) ==
     LET P == S.callers[c] IN
     CASE P.api = "get"   -> Post(S, c, S.cur, "op", "read", P.ids)
-      [] P.api = "put"   -> Post(S, c, S.cur, "op", "write", P.ids)
+      [] P.api = "put"   -> IF S.hasInfo THEN Post(S, c, S.cur, "op", "write", P.ids)
+                            ELSE Ret(S, c, E_INFO)          \* _write_characteristics_enter needs `info` (only via D_BYPASS)
       [] P.api = "sub"   -> LET new == P.ids \ S.wanted
                                 S1 == [S EXCEPT !.wanted = @ \cup P.ids]
                             IN IF new = {} THEN Ret(S1, c, "ok") ELSE Post(S1, c, S.cur, "op", "sub", new)
       [] P.api = "unsub" -> Post([S EXCEPT !.wanted = @ \ P.ids], c, S.cur, "op", "unsub", P.ids)
-      [] OTHER           -> \* close / shutdown: unsubscribe(list(subscriptions)), then end the session
-                            LET all == S.wanted
-                                S1 == [S EXCEPT !.wanted = {}]
+      [] OTHER           -> \* close / shutdown: unsubscribe(what was subscribed when close() was called), then end the session
+                            LET all == P.ids
+                                S1 == [S EXCEPT !.wanted = @ \ all]
                             IN IF all = {} THEN RetApi(S1, c, "ok") ELSE Post(S1, c, S.cur, "op", "unsub", all)
 
 \* the connect succeeded (database read, re-subscription done): `finally`, then the operation
@@ -174,6 +229,7 @@ StartConnect(S, c) ==
 \* first block of _ensure_connected
 EnsureEnter(S, c) ==
     IF S.shutdownF THEN OpStart(S, c)
+    ELSE IF D_BYPASS \in Deviations /\ ConnectedS(S) /\ S.fut # 0 THEN OpStart(Mark(S, D_BYPASS), c)
     ELSE IF S.fut = 0
          THEN IF ConnectedS(S) THEN OpStart(S, c) ELSE StartConnect(S, c)
          ELSE [S EXCEPT !.callers[c].pc = "wait", !.callers[c].w = "none"]   \* a connect is in progress: wait for it
@@ -204,11 +260,13 @@ CallerResume(c) ==
                      S1 == [S EXCEPT !.sess = Append(@, NewSess(P.x, S.addr)), !.cur = e, !.ctxs[P.x].res = TRUE,
                                      !.callers[c].k = 1, !.callers[c].q = "none"]
                  IN Post(S1, c, e, "info", InfoOp(1).op, InfoOp(1).ids)
+            [] P.pc \in {"m1", "m3"} /\ w = "cancel" /\ D_PVLEAK \in Deviations ->
+                 Ret(PrimaryFinally(Mark(S, D_PVLEAK), c), c, "disconnected")          \* `except Exception` misses CancelledError
             [] P.pc \in {"m1", "m3"} /\ w # "ok" -> ConnectFailed(S, c)
             [] P.q = "queued" ->                                        \* only `cancel` wakes a queued caller
                  PostFailed(Release(S, P.e, c), c, "cancelled")
             [] P.q = "flight" /\ w = "ok" ->
-                 LET S1 == Release([S EXCEPT !.callers[c].q = "none"], P.e, c) IN
+                 LET S1 == Release([S EXCEPT !.callers[c].q = "none", !.hasInfo = @ \/ (P.pc = "info" /\ P.k = 1)], P.e, c) IN
                  CASE P.pc = "info" ->
                         IF P.k < NInfo
                         THEN Post([S1 EXCEPT !.callers[c].k = P.k + 1], c, P.e, "info", InfoOp(P.k + 1).op, InfoOp(P.k + 1).ids)
@@ -217,9 +275,10 @@ CallerResume(c) ==
                              ELSE PrimaryOk(S2, c)
                    [] P.pc = "resub" -> PrimaryOk(S1, c)
                    [] OTHER -> RetApi(S1, c, "ok")
-            [] P.q = "flight" /\ w \in {"tmo", "neterr", "shutdown"} ->
+            [] P.q = "flight" /\ w \in {"tmo", "neterr"} ->
                  \* "Did not receive a reply; end of session."
                  PostFailed(Release(KillSess([S EXCEPT !.callers[c].q = "none"], P.e, c), P.e, c), c, "disconnected")
+            [] P.q = "flight" /\ w = "shutdown" -> ShutdownSeen([S EXCEPT !.callers[c].q = "none"], c, P.e)
             [] P.q = "flight" /\ w \in {"notfound", "garbage"} ->
                  \* 4.04: "our session is gone"; undecryptable: "self-destructing"; both end in EncryptionError
                  PostFailed(Release(KillSess([S EXCEPT !.callers[c].q = "none"], P.e, c), P.e, c), c, "encryption")
@@ -234,9 +293,18 @@ LockGrant(c) ==
     /\ Commit(IssueOn(St, c, callers[c].e))
 
 \* the task created by _async_endpoint_changed runs reconnect_soon
+BgStep(S) ==
+    IF S.cur = 0 THEN Emit(S, [ev |-> "bg", ok |-> TRUE])
+    ELSE IF S.sess[S.cur].dead
+         THEN IF D_BGDEAD \in Deviations
+              THEN Emit(Mark([S EXCEPT !.bgFailed = TRUE], D_BGDEAD), [ev |-> "bg", ok |-> FALSE])     \* None.shutdown(): enc_ctx stays
+              ELSE Emit([S EXCEPT !.cur = 0], [ev |-> "bg", ok |-> TRUE])
+         ELSE IF D_NOTMARK \in Deviations
+              THEN Emit([ShutCtx(S, S.sess[S.cur].x, 0) EXCEPT !.cur = 0], [ev |-> "bg", ok |-> TRUE])  \* coap_ctx of the old session stays set
+              ELSE Emit(Disconnect(S, 0), [ev |-> "bg", ok |-> TRUE])
 BgRun ==
     /\ bg > 0
-    /\ Commit(Emit([Disconnect(St, 0) EXCEPT !.bg = bg - 1], [ev |-> "bg", ok |-> TRUE]))
+    /\ Commit([BgStep(St) EXCEPT !.bg = bg - 1])
 
 \* ------------------------------------------------------------------ environment
 \* Input that reaches the event loop through its selector / timers (responses, time-outs, accessory events, zeroconf
@@ -256,10 +324,12 @@ Apis == {"get", "put", "sub", "unsub", "close", "shutdown"}
 \* an API call: its synchronous prefix (up to the first suspension)
 Call(c, api, ids) ==
     /\ callers[c].pc = "idle" /\ ~shutdownF /\ api \in Apis /\ ids \in IdChoices(api)
-    /\ api \in CloseApis => ~ConnectResponseUnprocessed
+    /\ (CloseEnds /\ api \in CloseApis) => ~ConnectResponseUnprocessed
     /\ MaxReq = 0 \/ nreq < MaxReq
     /\ MaxCtx = 0 \/ Len(ctxs) < MaxCtx \/ Connected \/ fut # 0
-    /\ LET S0 == [St EXCEPT !.callers[c] = [Idle EXCEPT !.api = api, !.ids = ids, !.pc = "call"],
+    /\ LET S0 == [St EXCEPT !.callers[c] = [Idle EXCEPT !.api = api, !.pc = "call",
+                                                        \* close(): list(self.subscriptions) is evaluated at the call
+                                                        !.ids = IF api \in CloseApis THEN wanted ELSE ids],
                             !.closedClean = FALSE, !.shutdownF = (api = "shutdown")]
        IN Commit(IF api \in CloseApis /\ ~ConnectedS(S0) THEN Ret(S0, c, "ok")      \* close(): `if is_connected`
                  ELSE EnsureEnter(S0, c))
@@ -272,16 +342,16 @@ Rsp(c, how) ==
     /\ ~ctxs[CtxOf(c)].shut
     /\ callers' = [callers EXCEPT ![c].w = how]
     /\ out' = << >>
-    /\ UNCHANGED <<ctxs, sess, cur, fut, wanted, addr, descr, shutdownF, nreq, bg, closedClean>>
+    /\ UNCHANGED <<ctxs, sess, cur, fut, wanted, addr, descr, shutdownF, nreq, bg, closedClean, hvars>>
 \* the 8 s / 16 s budget of the request expires
 Timeout(c) ==
     /\ Quiet /\ InFlight(c) /\ callers[c].w = "none"
     /\ callers' = [callers EXCEPT ![c].w = "tmo"]
     /\ out' = << >>
-    /\ UNCHANGED <<ctxs, sess, cur, fut, wanted, addr, descr, shutdownF, nreq, bg, closedClean>>
+    /\ UNCHANGED <<ctxs, sess, cur, fut, wanted, addr, descr, shutdownF, nreq, bg, closedClean, hvars>>
 Cancellable(c) ==
     /\ callers[c].api \notin CloseApis
-    /\ \/ callers[c].pc = "wait"
+    /\ \/ callers[c].pc = "wait" /\ callers[c].w # "cancel"
        \/ callers[c].pc \in {"m1", "m3"} /\ callers[c].w = "none"
        \/ callers[c].pc = "op" /\ callers[c].q = "flight" /\ callers[c].w = "none"
        \/ callers[c].pc = "op" /\ callers[c].q = "queued" /\ callers[c].w = "none" /\ callers[c].api # "sub"
@@ -289,15 +359,16 @@ Cancel(c) ==
     /\ Cancellable(c)
     /\ callers' = [callers EXCEPT ![c].w = "cancel"]
     /\ out' = << >>
-    /\ UNCHANGED <<ctxs, sess, cur, fut, wanted, addr, descr, shutdownF, nreq, bg, closedClean>>
+    /\ UNCHANGED <<ctxs, sess, cur, fut, wanted, addr, descr, shutdownF, nreq, bg, closedClean, hvars>>
 \* zeroconf: the pairing is told a description with address a
 Descr(a) ==
     /\ Quiet /\ a \in Addrs /\ ~shutdownF
+    /\ Obs \/ descr # a                                          \* (an unchanged description is a no-op)
     /\ IF descr = a THEN UNCHANGED <<addr, descr, bg>>
        ELSE /\ bg < MaxBg
             /\ descr' = a /\ addr' = a /\ bg' = bg + 1          \* _async_endpoint_changed
     /\ out' = << >>
-    /\ UNCHANGED <<ctxs, sess, cur, fut, wanted, shutdownF, callers, nreq, closedClean>>
+    /\ UNCHANGED <<ctxs, sess, cur, fut, wanted, shutdownF, callers, nreq, closedClean, hvars>>
 \* the accessory PUTs an event to the resource of the live context; key: under which key it is sealed
 \* ("cur": event key of the session that context belongs to, "old": of an earlier session, "wrong"), k: nonce counter.
 \* delivered to the listeners iff it opens under the current event key with the next counter
@@ -307,19 +378,22 @@ Event(key, k) ==
     /\ key \in {"cur", "old", "wrong"}
     /\ sess' = IF EventOk(key, k) THEN [sess EXCEPT ![cur].evc = @ + 1] ELSE sess
     /\ out' = << >>
-    /\ UNCHANGED <<ctxs, cur, fut, wanted, addr, descr, shutdownF, callers, nreq, bg, closedClean>>
+    /\ UNCHANGED <<ctxs, cur, fut, wanted, addr, descr, shutdownF, callers, nreq, bg, closedClean, hvars>>
+
+EventB(key, k) == Connected /\ sess[cur].evc < MaxEv /\ Event(key, k)        \* bounded for model checking
 
 \* ------------------------------------------------------------------ specification
 Init ==
     /\ ctxs = << >> /\ sess = << >> /\ cur = 0 /\ fut = 0 /\ wanted = InitWanted /\ addr = InitAddr /\ descr = "none"
     /\ shutdownF = FALSE /\ callers = [c \in Callers |-> Idle] /\ nreq = 0 /\ bg = 0 /\ closedClean = FALSE /\ out = << >>
+    /\ hasInfo = FALSE /\ devUsed = {} /\ badRet = FALSE /\ bgFailed = FALSE
 
 Internal == (\E c \in Callers : CallerResume(c) \/ LockGrant(c)) \/ BgRun
 Env == \/ \E c \in Callers : \/ \E api \in Apis : \E ids \in IdChoices(api) : Call(c, api, ids)
                              \/ \E how \in {"ok", "err", "neterr", "notfound", "garbage"} : Rsp(c, how)
                              \/ Timeout(c) \/ Cancel(c)
        \/ \E a \in Addrs : Descr(a)
-       \/ \E key \in {"cur", "old", "wrong"}, k \in 0..MaxEv : Connected /\ sess[cur].evc < MaxEv /\ Event(key, k)
+       \/ \E key \in {"cur", "old", "wrong"}, k \in 0..MaxEv : EventB(key, k)
 Next == Internal \/ Env
 Spec == Init /\ [][Next]_vars
 
@@ -354,17 +428,26 @@ NoOrphanRequest == \A c \in Callers : (InFlight(c) /\ callers[c].w = "none") => 
 \* requests of ordinary operations only go out on a session whose connect completed the database read
 OpOnReadySession == \A c \in Callers : (callers[c].pc = "op" /\ callers[c].q = "flight" /\ callers[c].api \notin CloseApis)
                                            => sess[callers[c].e].info
+\* ... and an operation is only started on such a session ("we need the info this provides to be able to read/write
+\* characteristics"): a caller that arrives while the connect is still reading the database waits for it
+OpStartsReady ==
+    [][\A c \in Callers : (callers[c].pc # "op" /\ callers'[c].pc = "op" /\ callers'[c].api \notin CloseApis)
+                              => sess'[callers'[c].e].info]_vars
 \* after a (re)connect everything the callers subscribed to is registered at the accessory for the current session
 SubPending == \E c \in Callers : callers[c].api = "sub" /\ callers[c].pc = "op" /\ callers[c].q = "queued"
 Subscribed == (Connected /\ fut = 0 /\ ~SubPending) => wanted \subseteq sess[cur].reg
 \* the events resource always decrypts with the session its context belongs to
 ResourceIsCurrent == \A x \in LiveCtx : ctxs[x].res => (cur # 0 /\ sess[cur].x = x)
 \* close() / shutdown() leave no context behind
-AfterCloseNoContext == closedClean => LiveCtx = {}
+AfterCloseNoContext == (CloseEnds /\ closedClean) => LiveCtx = {}
 
+\* every API call ends with a result or a library exception, and the background task never dies
+OnlyLibraryErrors == ~badRet
+BgNeverFails == ~bgFailed
 \* a session that ended is never used for another request, and the request counter of a session only counts up by one
 DeadNeverUsed ==
     [][\A e \in 1..Len(sess) : /\ sess[e].dead => (sess'[e].dead /\ sess'[e].sent = sess[e].sent)
+                               /\ ctxs[sess[e].x].shut => sess'[e].sent = sess[e].sent
                                /\ sess'[e].sent \in {sess[e].sent, sess[e].sent + 1}]_vars
 \* a new session starts with all counters at zero (the step that creates it also seals the database request, with
 \* nonce 0), and only a completed pair-verify creates one
@@ -378,7 +461,8 @@ EventsInOrder ==
     [][\A e \in 1..Len(sess) : sess'[e].evc # sess[e].evc => (e = cur /\ ~sess[e].dead /\ sess'[e].evc = sess[e].evc + 1)]_vars
 
 \* ---- liveness: every API call returns (fairness on the controller's steps; every request is answered or times out)
-Fairness == /\ \A c \in Callers : WF_vars(CallerResume(c)) /\ WF_vars(LockGrant(c)) /\ WF_vars(Timeout(c))
+\* (strong fairness for the time-out: input is only processed at quiet moments, which recur but need not persist)
+Fairness == /\ \A c \in Callers : WF_vars(CallerResume(c)) /\ WF_vars(LockGrant(c)) /\ SF_vars(Timeout(c))
             /\ WF_vars(BgRun)
 LiveSpec == Spec /\ Fairness
 EveryCallReturns == \A c \in Callers : (callers[c].pc # "idle") ~> (callers[c].pc = "idle")
